@@ -1020,14 +1020,11 @@ impl Server {
                             // from poisoning a transaction-mode pool by setting inappropriate session variables
                             match command.as_str() {
                                 "SET" => {
-                                    // We don't detect set statements in transactions
-                                    // No great way to differentiate between set and set local
-                                    // As a result, we will miss cases when set statements are used in transactions
-                                    // This will reduce amount of reset statements sent
-                                    if !self.in_transaction {
-                                        debug!("Server connection marked for clean up");
-                                        self.cleanup_state.needs_cleanup_set = true;
-                                    }
+                                    // A SET inside a transaction block outlives COMMIT just like one
+                                    // outside, and it cannot be told apart from SET LOCAL here, so the
+                                    // connection is reset in both cases.
+                                    debug!("Server connection marked for clean up");
+                                    self.cleanup_state.needs_cleanup_set = true;
                                 }
 
                                 "PREPARE" => {
